@@ -137,7 +137,7 @@ impl Prop for C01 {
                 if i > 0 {
                     pw = pw.mul(&xd);
                 }
-                if !in_range(&pw, 900) || !in_range(&pw.mul(&d(ci)), 900) {
+                if !in_range(&pw, 900) || !in_range(&pw.mul(&d(ci)), 900) || !in_range(&d(ci), 900) {
                     return Outcome::Skip("a partial term overflows/underflows 2^±900");
                 }
             }
